@@ -6,6 +6,24 @@ props = [json.loads(l) for l in open(os.path.join(V, "properties.jsonl"))]
 
 MACHINE_NOTE = 'The reference machine (spec/Machine.tla + Values.tla) is a transcription of the intended semantics checked for totality (NotStuck) by TLC; where no language document exists the pinned behaviour is the definition. Numbers outside the modelled domain are not compared.'
 CHECKS = {
+ "C17": dict(
+    level="model_checking",
+    text="Machine.tla builds the error a host sees for an uncaught exception exactly as new_error_from_value / runtime_error do: class from the "
+         "thrown value, 'Unhandled <class>: <context>', one '[module, line] in f()' entry per active frame of the failing fiber, innermost first, "
+         "with the raise location kept only while the innermost frame still belongs to the raising function. Seeded products cross 23 failure "
+         "kinds (every built-in failure class, thrown values, a host native failing with each ErrorKind) x call chains through functions, methods, "
+         "bound and static methods, constructors, lambdas and fibers x catch site x an earlier handled throw; programs are printed one statement "
+         "per line so every line number is predicted. Compile errors: 12 kinds of syntax error placed at a random line must be reported at that line.",
+    note=MACHINE_NOTE + " Module frames in traces are covered by C14's scenarios.",
+    technique="TLA+ reference machine (TLC) + scenario products replayed on the implementation", design="4 C17"),
+ "C18": dict(
+    level="model_checking",
+    text="The for statement is desugared in Machine.tla as the compiler does (iter(), next(), assign the loop variable, test StopIter), built-in "
+         "iterators are index based, and map / filter / collect / reduce are core.yl's own code (Iter, MapIter, FilterIter as a token prelude with "
+         "their core.yl line numbers) executed by the machine. Seeded products: 13 iterables x 0-3 adapters x 11 consumers (break / continue / "
+         "return, nested and interleaved loops over one iterator, mutation during iteration, manual next), replayed on both builds.",
+    note=MACHINE_NOTE + " String iteration is decided by C13.",
+    technique="TLA+ reference machine (TLC) + scenario products replayed on the implementation", design="4 C18"),
  "C07": dict(
     level="model_checking",
     text="Machine.tla models class definition as the VM performs it (variable nil while defining, superclass check, methods copied down at "
